@@ -31,11 +31,33 @@ pub struct Recovery {
     pub gc_stats: crate::blob_tree::FragmentationMap,
 }
 
+/// Reads the expected checksum of the current version file.
+fn get_current_version_checksum(folder: &Path) -> crate::Result<Checksum> {
+    let mut file = std::fs::File::open(folder.join(CURRENT_VERSION_FILE))?;
+
+    let _version_id = file.read_u64::<LittleEndian>()?;
+    let checksum = file.read_u128::<LittleEndian>()?;
+
+    let checksum_type = file.read_u8()?;
+    if checksum_type != 0 {
+        return Err(crate::Error::InvalidTag(("ChecksumType", checksum_type)));
+    }
+
+    Ok(Checksum::from_raw(checksum))
+}
+
 pub fn recover(folder: &Path) -> crate::Result<Recovery> {
     let curr_version_id = get_current_version(folder)?;
     let version_file_path = folder.join(format!("v{curr_version_id}"));
 
-    // TODO: maybe validate current version using the checksum in "current"
+    // NOTE: Only the table of contents of the version file is protected by the archive format,
+    // so validate the whole file using the checksum stored in "current"
+    {
+        let expected = get_current_version_checksum(folder)?;
+        let bytes = std::fs::read(&version_file_path)?;
+        let got = Checksum::from_raw(crate::hash::hash128(&bytes));
+        got.check(expected)?;
+    }
 
     log::info!(
         "Recovering current manifest at {}",
